@@ -7,27 +7,38 @@ import Hs.Lemmas.ZincRtGrid
 namespace Hs.Zinc
 open Hs Hs.Scan Hs.Spell
 
-/-- what the grid reader needs of a spelled grid (from `ver` on): `m` meta, `cl` column line, `rw` rows -/
-structure GridOkW (md : OTags) (cols : Cols) (rows : Rows) (ver : List Char) (m nl1 cl nl2 rw : List UInt8) : Prop where
+/-- what the grid reader needs of a spelled grid (from `ver` on): `m` meta, `cl` column line, `rw` rows, blanks `w1`
+`w2` before the line endings `nl1` `nl2`; `tlf`: the text after the grid may start with LF -/
+structure GridOkW (tlf : Bool) (md : OTags) (cols : Cols) (rows : Rows) (ver : List Char)
+    (m w1 nl1 cl w2 nl2 rw : List UInt8) : Prop where
   okVer : ver = ['3', '.', '0']
   okMeta : MetaOkW (RdTagsW dictParts 10) md m
   okCols : ColsOkW cols cl
   okNodup : cols.names.Nodup
-  okRows : RowsOkW cols.names (cols.length == 1) rows rw
+  okRows : RowsOkW cols.names (cols.length == 1) tlf rows rw
+  okW1 : Blanks w1
   okNl1 : Nl nl1
+  okW2 : Blanks w2
   okNl2 : Nl nl2
+  okCr2 : CrOk nl2 rw tlf
 
 theorem colsOkW_cons {cols : Cols} {cl : List UInt8} (h : ColsOkW cols cl) : ∃ n cm c, cols = .cons n cm c := by
   cases h with
   | one n md m hn hm => exact ⟨n, md, .nil, rfl⟩
   | cons n md n2 md2 c m w rest hn hm hw t => exact ⟨n, md, _, rfl⟩
 
+theorem FirstW.head_ne {bs : List UInt8} (h : FirstW bs) : bs.head? ≠ some 10 := by
+  obtain ⟨b, r, rfl, hb⟩ := h
+  simp only [List.head?_cons, ne_eq, Option.some.injEq]
+  exact hb.2.2.2
+
 /-- the reads from the `:` after `ver` to the line ending after the column line -/
-theorem header_chainW {md : OTags} {cols : Cols} {m nl1 cl nl2 : List UInt8}
-    (hmd : MetaOkW (RdTagsW dictParts 10) md m) (hcok : ColsOkW cols cl) (hn1 : Nl nl1) (hn2 : Nl nl2)
-    (depth g : Nat) (s0 : Scan) (region : List UInt8)
-    (hat : At s0 (58 :: 34 :: 51 :: 46 :: 48 :: 34 :: (m ++ (nl1 ++ (cl ++ (nl2 ++ region))))))
-    (hs : s0.stash = []) (hf : 4 * (m.length + cl.length) + 48 ≤ g)
+theorem header_chainW {md : OTags} {cols : Cols} {m w1 nl1 cl w2 nl2 : List UInt8}
+    (hmd : MetaOkW (RdTagsW dictParts 10) md m) (hcok : ColsOkW cols cl) (hw1 : Blanks w1) (hn1 : Nl nl1)
+    (hw2 : Blanks w2) (hn2 : Nl nl2)
+    (depth g : Nat) (s0 : Scan) (region : List UInt8) (hcr2 : NoLF nl2 region)
+    (hat : At s0 (58 :: 34 :: 51 :: 46 :: 48 :: 34 :: (m ++ (w1 ++ (nl1 ++ (cl ++ (w2 ++ (nl2 ++ region))))))))
+    (hs : s0.stash = []) (hf : 4 * (m.length + cl.length) + w1.length + w2.length + 48 ≤ g)
     (hd : depth + nestO md ≤ 64 ∧ depth + nestC cols ≤ 64) :
     ∃ (sQ : Scan) (p3 p4 p5 : PS) (mkvs : List (List Char × Val)),
       lexRead g s0 = .ok { sc := s0.advance, tok := .ch 58 } ∧
@@ -41,33 +52,35 @@ theorem header_chainW {md : OTags} {cols : Cols} {m nl1 cl nl2 : List UInt8}
   have h1 := hat.advance
   have hs1 : s0.advance.stash = [] := by rw [At.advance_stash, hs]; rfl
   have hq : encQuoted ['3', '.', '0'] = [34, 51, 46, 48, 34] := by decide
-  obtain ⟨sQ, eQ, hQ, hsQ⟩ := lexRead_str ['3', '.', '0'] s0.advance (m ++ (nl1 ++ (cl ++ (nl2 ++ region)))) (g' + 2)
-    (by rw [hq]; simpa using h1) hs1 (by rw [hq]; simp; omega)
+  obtain ⟨sQ, eQ, hQ, hsQ⟩ := lexRead_str ['3', '.', '0'] s0.advance (m ++ (w1 ++ (nl1 ++ (cl ++ (w2 ++ (nl2 ++ region))))))
+    (g' + 2) (by rw [hq]; simpa using h1) hs1 (by rw [hq]; simp; omega)
   have hnl1 : nl1.length ≤ 2 := by cases hn1 <;> simp
+  have hcr1 : NoLF nl1 (cl ++ (w2 ++ (nl2 ++ region))) := NoLF_of_ne (hcok.firstW _).head_ne
   have hmeta : ∃ (p3 p4 : PS) (mkvs : List (List Char × Val)), lexRead (g' + 2) sQ = .ok p3 ∧
       dictParts (g' + 2) depth p3 false [] = .ok (mkvs, p4) ∧ p4.tok = .ch 10 ∧
       (if mkvs.isEmpty then OTags.none else OTags.some (dictOf mkvs)) = lexImgO md ∧
-      At p4.sc (cl ++ (nl2 ++ region)) ∧ p4.sc.stash = [] := by
+      At p4.sc (cl ++ (w2 ++ (nl2 ++ region))) ∧ p4.sc.stash = [] := by
     cases hmd with
     | none =>
       simp only [List.nil_append] at hQ
-      obtain ⟨s', e, h', hs'⟩ := lexRead_nl nl1 hn1 sQ _ hQ (by simp [hsQ]) (g' + 1)
+      obtain ⟨s', e, h', hs'⟩ := lexRead_nlW w1 hw1 nl1 hn1 sQ _ hQ hcr1 (by simp [hsQ]) (fun _ => hsQ) (g' + 2) (by omega)
       refine ⟨{ sc := s', tok := .ch 10 }, { sc := s', tok := .ch 10 }, [], e, ?_, rfl, by simp [lexImgO], h', hs'⟩
       have heof : s'.eof = false := by
-        obtain ⟨b, r, eb, _⟩ := hcok.firstW (nl2 ++ region)
+        obtain ⟨b, r, eb, _⟩ := hcok.firstW (w2 ++ (nl2 ++ region))
         rw [eb] at h'; exact h'.eof
       rw [dictParts]
       simp [isEof_mk, heof]
-    | some k v t' body hks hrt =>
+    | some k v t' w body hw hwne hks hrt =>
       obtain ⟨afterK, hb, hk, hstop, hrun⟩ := hrt k v t' rfl
       have hlenk : k.length ≤ (encChars k).length := encChars_length_ge k
-      simp only [List.length_cons] at hf
+      simp only [List.length_append] at hf
       have hlb : body.length = (encChars k).length + afterK.length := by rw [hb]; simp
-      have hE : EndOk 10 (nl1 ++ (cl ++ (nl2 ++ region))) (cl ++ (nl2 ++ region)) := EndOk.nl nl1 _ hn1
-      have hQ' : At sQ ([32] ++ (encChars k ++ (afterK ++ (nl1 ++ (cl ++ (nl2 ++ region)))))) := by
+      have hE : EndOk 10 (w1 ++ (nl1 ++ (cl ++ (w2 ++ (nl2 ++ region))))) (cl ++ (w2 ++ (nl2 ++ region))) :=
+        EndOk.nl w1 nl1 _ hw1 hn1 hcr1
+      have hQ' : At sQ (w ++ (encChars k ++ (afterK ++ (w1 ++ (nl1 ++ (cl ++ (w2 ++ (nl2 ++ region)))))))) := by
         rw [hb] at hQ; simpa using hQ
-      obtain ⟨s2, e2, h2, hs2⟩ := lexRead_idW [32] blanks_one k hk sQ _ hQ' (hstop _ _ hE) (by simp [hsQ])
-        (fun _ => hsQ) (g' + 2) (by simp; omega)
+      obtain ⟨s2, e2, h2, hs2⟩ := lexRead_idW w hw k hk sQ _ hQ' (hstop _ _ hE) (by simp [hsQ])
+        (fun _ => hsQ) (g' + 2) (by omega)
       obtain ⟨p4, e4, ht4, h4, hs4⟩ := hrun depth (g' + 2) s2 false [] _ _ hE h2 hs2
         (by simp only [List.length_append]; omega) (by simpa [nestO] using hd.1)
       have hdict : dictOf (lexImgT (.cons k v t')).toList = lexImgT (.cons k v t') :=
@@ -77,7 +90,7 @@ theorem header_chainW {md : OTags} {cols : Cols} {m nl1 cl nl2 : List UInt8}
         simpa [lexImgT, Tags.toList] using hdict
       simp [lexImgT, Tags.toList, lexImgO, hdict']
   obtain ⟨p3, p4, mkvs, e3, e4, ht4, hmdeq, h4, hs4⟩ := hmeta
-  obtain ⟨p5, e5, ht5, h5, hs5⟩ := gridColumnsW hcok depth (g' + 2) p4 [] region nl2 [] hn2 Blanks.nil
+  obtain ⟨p5, e5, ht5, h5, hs5⟩ := gridColumnsW hcok depth (g' + 2) p4 [] region nl2 w2 [] hn2 hw2 hcr2 Blanks.nil
     (by simpa using h4) (by simp [hs4]) (fun _ => hs4) (by simp; omega) hd.2
   exact ⟨sQ, p3, p4, p5, mkvs, lexRead_special hat (by decide) (by decide) (g' + 1), eQ, e3, e4, ht4, hmdeq,
     by simpa using e5, ht5, h5, hs5⟩
@@ -88,11 +101,13 @@ theorem cols_singleW (cols : Cols) : cols.names.length = 1 → (cols.length == 1
   | cons n cm c => exact cols_single n cm c
 
 /-- `parse_grid` from the `:` after `ver` on (both the nested and the top-level entry end up here) -/
-theorem parseGrid_tailW {md : OTags} {cols : Cols} {rows : Rows} {ver : List Char} {m nl1 cl nl2 rw : List UInt8}
-    (hok : GridOkW md cols rows ver m nl1 cl nl2 rw) {nested : Bool} {tail final : List UInt8}
-    (hE : GridEnd nested tail final) (D g : Nat) (s0 : Scan)
-    (hat : At s0 (58 :: 34 :: 51 :: 46 :: 48 :: 34 :: (m ++ (nl1 ++ (cl ++ (nl2 ++ (rw ++ tail)))))))
-    (hs : s0.stash = []) (hf : 4 * (m.length + cl.length + rw.length) + 48 ≤ g)
+theorem parseGrid_tailW {tlf : Bool} {md : OTags} {cols : Cols} {rows : Rows} {ver : List Char}
+    {m w1 nl1 cl w2 nl2 rw : List UInt8}
+    (hok : GridOkW tlf md cols rows ver m w1 nl1 cl w2 nl2 rw) {nested : Bool} {tail final : List UInt8}
+    (hE : GridEnd nested tail final) (htl : tlf = false → tail.head? ≠ some 10) (D g : Nat) (s0 : Scan)
+    (hat : At s0 (58 :: 34 :: 51 :: 46 :: 48 :: 34 :: (m ++ (w1 ++ (nl1 ++ (cl ++ (w2 ++ (nl2 ++ (rw ++ tail)))))))))
+    (hs : s0.stash = []) (hf : 4 * (m.length + cl.length + rw.length) + w1.length + w2.length + 48 ≤ g)
+    (hfu : nested = false → 4 * rw.length + tail.length + 20 ≤ g)
     (hd : D + nestV (.grid md cols rows ver) ≤ 64) :
     ∃ (sQ : Scan) (p3 p4 p5 p6 : PS) (mkvs : List (List Char × Val)) (r' : RowState),
       lexRead g s0 = .ok { sc := s0.advance, tok := .ch 58 } ∧
@@ -106,53 +121,59 @@ theorem parseGrid_tailW {md : OTags} {cols : Cols} {rows : Rows} {ver : List Cha
         = .ok ((lexImgR rows).toList, r') ∧
       At r'.p.sc final ∧ r'.p.sc.stash = [] := by
   simp only [nestV] at hd
+  have hcr2 : NoLF nl2 (rw ++ tail) := by
+    intro e
+    by_cases hr : rw = []
+    · subst hr; simpa using htl (hok.okCr2 e rfl)
+    · exact hok.okRows.head_ne (cols_singleW cols) hr tail
   obtain ⟨sQ, p3, p4, p5, mkvs, e1, e2, e3, e4, ht4, hmd, e5, ht5, h5, hs5⟩ := header_chainW hok.okMeta hok.okCols
-    hok.okNl1 hok.okNl2 D g s0 _ hat hs (by omega) (by omega)
+    hok.okW1 hok.okNl1 hok.okW2 hok.okNl2 D g s0 _ hcr2 hat hs (by omega) (by omega)
   obtain ⟨n, cm, c, hcols⟩ := colsOkW_cons hok.okCols
   have hne : cols.names ≠ [] := by rw [hcols]; simp [Cols.names]
-  obtain ⟨p6, r', e6, e7, h7, hs7⟩ := rows_allW cols.names (cols.length == 1) nested tail final hE hne
-    (cols_singleW cols) hok.okNodup D rows rw hok.okRows (by omega) g p5.sc h5 hs5 (by omega)
+  obtain ⟨p6, r', e6, e7, h7, hs7⟩ := rows_allW cols.names (cols.length == 1) nested tlf tail final hE htl hne
+    (cols_singleW cols) hok.okNodup D rows rw hok.okRows (by omega) g p5.sc h5 hs5 (by omega) hfu
   have i4 : PS.isChar p4 10 = true := by unfold PS.isChar; rw [ht4]; rfl
   have i5 : PS.isChar p5 10 = true := by unfold PS.isChar; rw [ht5]; rfl
   exact ⟨sQ, p3, p4, p5, p6, mkvs, r', e1, e2, e3, e4, i4, hmd, e5, i5, e6, e7, h7, hs7⟩
 
 /-- the text of a spelled grid from `ver` on -/
-def gridText (m nl1 cl nl2 rw : List UInt8) : List UInt8 :=
-  [118, 101, 114, 58, 34, 51, 46, 48, 34] ++ m ++ nl1 ++ cl ++ nl2 ++ rw
+def gridText (m w1 nl1 cl w2 nl2 rw : List UInt8) : List UInt8 :=
+  [118, 101, 114, 58, 34, 51, 46, 48, 34] ++ m ++ w1 ++ nl1 ++ cl ++ w2 ++ nl2 ++ rw
 
-theorem gridText_length (m nl1 cl nl2 rw : List UInt8) :
-    (gridText m nl1 cl nl2 rw).length = 9 + m.length + nl1.length + cl.length + nl2.length + rw.length := by
+theorem gridText_length (m w1 nl1 cl w2 nl2 rw : List UInt8) :
+    (gridText m w1 nl1 cl w2 nl2 rw).length =
+      9 + m.length + w1.length + nl1.length + cl.length + w2.length + nl2.length + rw.length := by
   simp [gridText]; omega
 
-/-- **a nested grid**: `<<` line ending … `>>` through `parseValue` -/
-theorem SpOk_grid {md : OTags} {cols : Cols} {rows : Rows} {ver : List Char} {m nl1 cl nl2 rw nl : List UInt8}
-    (hok : GridOkW md cols rows ver m nl1 cl nl2 rw) (hn : Nl nl) :
-    SpOk (.grid md cols rows ver) (60 :: 60 :: (nl ++ gridText m nl1 cl nl2 rw ++ [62, 62])) := by
+/-- **a nested grid**: `<<` blanks line ending … `>>` through `parseValue` -/
+theorem SpOk_grid {md : OTags} {cols : Cols} {rows : Rows} {ver : List Char} {m w1 nl1 cl w2 nl2 rw w nl : List UInt8}
+    (hok : GridOkW false md cols rows ver m w1 nl1 cl w2 nl2 rw) (hw : Blanks w) (hn : Nl nl) :
+    SpOk (.grid md cols rows ver) (60 :: 60 :: (w ++ nl ++ gridText m w1 nl1 cl w2 nl2 rw ++ [62, 62])) := by
   refine ⟨?_, ⟨60, _, rfl, by decide, by decide, by decide, by decide⟩⟩
   intro depth f1 f2 s rest hat hs hd hf1 hf2 hn'
-  have hl := gridText_length m nl1 cl nl2 rw
+  have hl := gridText_length m w1 nl1 cl w2 nl2 rw
   have hnl : 1 ≤ nl.length := by cases hn <;> simp
   simp only [List.length_cons, List.length_append, List.length_nil, hl] at hf1 hf2
   obtain ⟨g1, rfl⟩ : ∃ g, f1 = g + 1 := ⟨f1 - 1, by omega⟩
   obtain ⟨g, rfl⟩ : ∃ g, f2 = g + 3 := ⟨f2 - 3, by omega⟩
   have hndp : ¬ (depth ≥ maxNestingDepth) := by unfold maxNestingDepth; omega
-  have hat' : At s (60 :: 60 :: (nl ++ (118 :: 101 :: 114 :: 58 :: 34 :: 51 :: 46 :: 48 :: 34 ::
-      (m ++ (nl1 ++ (cl ++ (nl2 ++ (rw ++ 62 :: 62 :: rest)))))))) := by
+  have hat' : At s (60 :: 60 :: ((w ++ nl) ++ (118 :: 101 :: 114 :: 58 :: 34 :: 51 :: 46 :: 48 :: 34 ::
+      (m ++ (w1 ++ (nl1 ++ (cl ++ (w2 ++ (nl2 ++ (rw ++ 62 :: 62 :: rest)))))))))) := by
     simpa [gridText] using hat
   have h1 := hat'.advance
   have h2 := h1.advance
   have hs2 : s.advance.advance.stash = [] := advN_stash_nil 2 s hs
-  have hcw := cws_nl_then hn h2 ⟨118, _, rfl, by decide, by decide, by decide, by decide⟩ (g - 2)
-  have hg : g - 2 + 3 = g + 1 := by omega
-  rw [hg] at hcw
+  have hcw := cws_white_then (w ++ nl) (White.append (Blanks.white hw) (Nl.white hn)) _
+    ⟨118, _, rfl, by decide, by decide, by decide, by decide⟩ s.advance.advance (g + 1) h2
+    (by simp only [List.length_append]; omega)
   have h3 := h2.advN
-  have hs3 : (advN nl.length s.advance.advance).stash = [] := advN_stash_nil _ _ hs2
-  obtain ⟨e0, h0⟩ := lexRead_id ['v', 'e', 'r'] isIdent_ver (advN nl.length s.advance.advance) _ g
+  have hs3 : (advN (w ++ nl).length s.advance.advance).stash = [] := advN_stash_nil _ _ hs2
+  obtain ⟨e0, h0⟩ := lexRead_id ['v', 'e', 'r'] isIdent_ver (advN (w ++ nl).length s.advance.advance) _ g
     (by rw [encChars_ver]; exact h3) (Stop_cons (by decide)) (by simp; omega)
   simp only [List.length_cons, List.length_nil] at e0 h0
   obtain ⟨sQ, p3, p4, p5, p6, mkvs, r', e1, e2, e3, e4, i4, hmd, e5, i5, e6, e7, h7, hs7⟩ :=
-    parseGrid_tailW hok (GridEnd.nested rest) (depth + 1) g _ h0 (advN_stash_nil _ _ hs3) (by omega)
-      (by simp only [nestV] at hn' ⊢; omega)
+    parseGrid_tailW hok (GridEnd.nested rest) (fun _ => by simp) (depth + 1) g _ h0 (advN_stash_nil _ _ hs3) (by omega)
+      (fun h => by cases h) (by simp only [nestV] at hn' ⊢; omega)
   refine ⟨{ sc := s.advance, tok := .ch 60 }, r'.p, lexRead_special hat' (by decide) (by decide) g1,
     fun _ => h1.eof, Or.inr (Or.inr rfl), ?_, Post.of_clean h7 hs7⟩
   rw [parseValue]
@@ -168,30 +189,32 @@ theorem SpOk_grid {md : OTags} {cols : Cols} {rows : Rows} {ver : List Char} {m 
   simp only [e1, e2, e3, e4, i4, e5, i5, e6, hmd, c4]
   simp [lexImgC_names, e7, lexImg, Cols.ofList_toList, Rows.ofList_toList, hok.okVer]
 
-/-- **a grid document**: the text from `ver` on, followed by nothing or by one more line ending -/
-theorem fromBytes_gridW {md : OTags} {cols : Cols} {rows : Rows} {ver : List Char} {m nl1 cl nl2 rw tail : List UInt8}
-    (hok : GridOkW md cols rows ver m nl1 cl nl2 rw) (hE : GridEnd false tail []) (hn : nestV (.grid md cols rows ver) < 64) :
-    fromBytes (gridText m nl1 cl nl2 rw ++ tail) = .ok (lexImg (.grid md cols rows ver)) := by
+/-- **a grid document**: blanks, the text from `ver` on, then nothing or blank lines -/
+theorem fromBytes_gridW {tlf : Bool} {md : OTags} {cols : Cols} {rows : Rows} {ver : List Char}
+    {m w1 nl1 cl w2 nl2 rw lead tail : List UInt8}
+    (hok : GridOkW tlf md cols rows ver m w1 nl1 cl w2 nl2 rw) (hl : Blanks lead) (hE : GridEnd false tail [])
+    (htl : tlf = false → tail.head? ≠ some 10) (hn : nestV (.grid md cols rows ver) < 64) :
+    fromBytes (lead ++ gridText m w1 nl1 cl w2 nl2 rw ++ tail) = .ok (lexImg (.grid md cols rows ver)) := by
   unfold fromBytes
-  have hl := gridText_length m nl1 cl nl2 rw
-  generalize hfu : fuelFor (gridText m nl1 cl nl2 rw ++ tail).length = fuel
-  have hfuel : 8 * ((gridText m nl1 cl nl2 rw).length + tail.length) + 64 = fuel := by
-    rw [← hfu]; simp [fuelFor]
+  have hl' := gridText_length m w1 nl1 cl w2 nl2 rw
+  generalize hfu : fuelFor (lead ++ gridText m w1 nl1 cl w2 nl2 rw ++ tail).length = fuel
+  have hfuel : 8 * (lead.length + (gridText m w1 nl1 cl w2 nl2 rw).length + tail.length) + 64 = fuel := by
+    rw [← hfu]; simp [fuelFor]; omega
   obtain ⟨g, rfl⟩ : ∃ g, fuel = g + 3 := ⟨fuel - 3, by omega⟩
-  have hat : At (Scan.make (gridText m nl1 cl nl2 rw ++ tail)) (gridText m nl1 cl nl2 rw ++ tail) := At_make_all' _
-  have hs : (Scan.make (gridText m nl1 cl nl2 rw ++ tail)).stash = [] := by
-    simp [gridText, Scan.make]
-  generalize Scan.make (gridText m nl1 cl nl2 rw ++ tail) = s at hat hs
-  have hat' : At s (118 :: 101 :: 114 :: 58 :: 34 :: 51 :: 46 :: 48 :: 34 ::
-      (m ++ (nl1 ++ (cl ++ (nl2 ++ (rw ++ tail)))))) := by
-    simpa [gridText] using hat
-  obtain ⟨e0, h0⟩ := lexRead_id ['v', 'e', 'r'] isIdent_ver s _ (g + 3)
-    (by rw [encChars_ver]; exact hat') (Stop_cons (by decide)) (by simp; omega)
-  simp only [List.length_cons, List.length_nil] at e0 h0
+  have hat : At (Scan.make (lead ++ gridText m w1 nl1 cl w2 nl2 rw ++ tail)) (lead ++ gridText m w1 nl1 cl w2 nl2 rw ++ tail) :=
+    At_make_all' _
+  have hs : (Scan.make (lead ++ gridText m w1 nl1 cl w2 nl2 rw ++ tail)).stash = [] := by
+    cases hx : lead ++ gridText m w1 nl1 cl w2 nl2 rw ++ tail <;> simp [Scan.make]
+  generalize Scan.make (lead ++ gridText m w1 nl1 cl w2 nl2 rw ++ tail) = s at hat hs
+  have hat' : At s (lead ++ (encChars ['v', 'e', 'r'] ++ (58 :: 34 :: 51 :: 46 :: 48 :: 34 ::
+      (m ++ (w1 ++ (nl1 ++ (cl ++ (w2 ++ (nl2 ++ (rw ++ tail)))))))))) := by
+    rw [encChars_ver]; simpa [gridText] using hat
+  obtain ⟨s0, e0, h0, hs0⟩ := lexRead_idW lead hl ['v', 'e', 'r'] isIdent_ver s _ hat' (Stop_cons (by decide))
+    (by simp [hs]) (fun _ => hs) (g + 3) (by simp; omega)
   obtain ⟨sQ, p3, p4, p5, p6, mkvs, r', e1, e2, e3, e4, i4, hmd, e5, i5, e6, e7, h7, hs7⟩ :=
-    parseGrid_tailW hok hE 1 g _ h0 (advN_stash_nil _ _ hs) (by omega) (by omega)
+    parseGrid_tailW hok hE htl 1 g _ h0 hs0 (by omega) (fun _ => by omega) (by omega)
   have hndp : ¬ (0 ≥ maxNestingDepth) := by unfold maxNestingDepth; omega
-  have c0 : PS.isChar { sc := advN 3 s, tok := .id ['v', 'e', 'r'] } 60 = false := rfl
+  have c0 : PS.isChar { sc := s0, tok := .id ['v', 'e', 'r'] } 60 = false := rfl
   have c4 : ∀ sc : Scan, PS.isChar { sc := sc, tok := .ch 58 } 58 = true := fun _ => rfl
   simp only [e0]
   rw [parseValue]
